@@ -163,6 +163,19 @@ pub fn parse_json(text: &str) -> Result<Vec<Value>, String> {
     Ok(recs)
 }
 
+/// a writer that accepts at most seven bytes per call
+struct Stingy(Vec<u8>);
+impl std::io::Write for Stingy {
+    fn write(&mut self, buf: &[u8]) -> std::io::Result<usize> {
+        let n = buf.len().min(7);
+        self.0.extend_from_slice(&buf[..n]);
+        Ok(n)
+    }
+    fn flush(&mut self) -> std::io::Result<()> {
+        Ok(())
+    }
+}
+
 fn expected_record(r: &Value) -> Value {
     // the message is what Diagnostic::message() gives for the same diagnostic
     let d = build(&json!({"kind": if r["severity"] == "error" { "error" } else { "lint" }, "code": r["code"], "msg": r["msg"], "span": r["span"], "notes": r["notes"]}));
@@ -210,12 +223,29 @@ impl Family for Emitter {
             emitter.emit_diagnostics(updated)
         };
         let text = String::from_utf8_lossy(&out).to_string();
+        // the same list once more into a writer that takes at most seven bytes per call (as a pipe under pressure may): what
+        // arrives is the same text
+        let mut stingy = Stingy(Vec::new());
+        {
+            let mut again = slicec::diagnostics::Diagnostics::new();
+            for d in case["diags"].as_array().cloned().unwrap_or_default() {
+                build(&d).push_into(&mut again);
+            }
+            let updated = again.into_updated(&ast, &files, &options);
+            let mut emitter = DiagnosticEmitter::new(&mut stingy, &options, &files);
+            let _ = emitter.emit_diagnostics(updated);
+        }
+        let short_writes_same = stingy.0 == out;
         let rendered = json!({"format": format, "colour": colour, "allow": allow, "n": case["diags"].as_array().map(|a| a.len())});
         let key = hash_str(&case.to_string());
         let expect = &case["expect"];
         let fail = (|| {
             if res.is_err() {
                 return Some(json!({"kind": "mismatch", "what": "emit_diagnostics returned an error"}));
+            }
+            if !short_writes_same {
+                return Some(json!({"kind": "mismatch", "what": "a writer that takes a few bytes per call receives another text than one that takes everything",
+                                   "whole": text, "short_writes": String::from_utf8_lossy(&stingy.0)}));
             }
             let (plain, escapes) = strip_ansi(&text);
             if !colour && escapes > 0 {
@@ -277,6 +307,8 @@ pub fn bin_program(id: u64) -> (String, String) {
         4 => "module M\nstruct {\n".to_owned(),
         // non-ASCII text in front of two spans on one line (columns count characters, not bytes)
         8 => "module M\n/// \u{30c7}\u{30fc}\u{30bf}\u{306e}\u{5b9b}\u{5148} {@link Sink} \u{438} \u{421}\u{43c}\u{43e}\u{442}\u{440}\u{438}\u{442}\u{435} \u{442}\u{430}\u{43a}\u{436}\u{435} {@link Other}\nstruct S {}\n".to_owned(),
+        // no module declaration (the second file of this program has the same defect)
+        9 => "struct S {}\n".to_owned(),
         // a compact struct with two fields of the same illegal key type: one error with two notes of the same text
         7 => "module M\ncompact struct K {\n  x: float32\n  y: float32\n}\nstruct U { d: Dictionary<K, bool> }\n".to_owned(),
         _ => "module M\n/// See {@link Missing} and {@link AlsoMissing}.\n/// @param nope: no such parameter\nstruct A { b: B }\nstruct B { a: Sequence<A?> }\n[deprecated] struct Old {}\nstruct U { o: Old }\n".to_owned(),
@@ -305,13 +337,20 @@ impl Family for EmitBin {
         let allow = strs(&case["allow"]);
         let (name, text) = bin_program(prog);
         std::fs::write(dir.join(&name), &text).unwrap();
+        // program 9 has a second file with the same defect (no module declaration: an error without a location, in each file)
+        let second = if prog == 9 { Some("b.slice".to_owned()) } else { None };
+        if let Some(b) = &second {
+            std::fs::write(dir.join(b), "struct T {}\n").unwrap();
+        }
         // a reference directory that also holds files that are no Slice files (they are skipped silently: nothing about
         // them belongs on the diagnostic stream) and an unused Slice file
         std::fs::create_dir_all(dir.join("refs/nested")).unwrap();
         std::fs::write(dir.join("refs/README.md"), "# not Slice\n").unwrap();
         std::fs::write(dir.join("refs/nested/old.slice.bak"), "module Old\n").unwrap();
         std::fs::write(dir.join("refs/nested/unused.slice"), "module Unused\nstruct NotUsed {}\n").unwrap();
-        let mut argv: Vec<String> = vec![name.clone(), "-R".into(), "refs".into(), "--diagnostic-format".into(), format.into()];
+        let mut argv: Vec<String> = vec![name.clone()];
+        argv.extend(second.iter().cloned());
+        argv.extend(["-R".to_owned(), "refs".to_owned(), "--diagnostic-format".to_owned(), format.to_owned()]);
         if disable {
             argv.push("--disable-color".into());
         }
@@ -341,7 +380,7 @@ impl Family for EmitBin {
         };
         let prev = std::env::current_dir().ok();
         let _ = std::env::set_current_dir(&dir);
-        let lib_options = SliceOptions { sources: vec![name.clone()], references: vec!["refs".to_owned()], allowed_lints: allow.clone(), ..Default::default() };
+        let lib_options = SliceOptions { sources: std::iter::once(name.clone()).chain(second.iter().cloned()).collect(), references: vec!["refs".to_owned()], allowed_lints: allow.clone(), ..Default::default() };
         let state = slicec::compile_from_options(&lib_options);
         let lib: Vec<Value> = state
             .into_diagnostics(&lib_options)
@@ -404,7 +443,7 @@ impl Family for EmitBin {
         }
         let exit = res.status.and_then(|s| s.code()).map(|c| c as i64).unwrap_or(-1);
         emit_event("emitbin", &json!({
-            "ev": "emit", "driver": driver, "prog": prog, "format": format, "disable_color": disable, "allow": allow, "gen": gen,
+            "ev": "emit", "driver": driver, "min_errors": case["min_errors"], "prog": prog, "format": format, "disable_color": disable, "allow": allow, "gen": gen,
             "lib": lib, "records": records, "json_ok": json_ok, "escapes": esc_err + esc_out,
             "sum_w": sum_w, "sum_e": sum_e, "stdout_other": other, "stderr_other": stderr_other, "exit": exit, "timed_out": res.timed_out,
         }));
